@@ -398,7 +398,9 @@ theorem count_flatMap_replicate {α : Type} [BEq α] [LawfulBEq α] (c : α → 
       simp [hnd.1, h i List.mem_cons_self]
     · have : (i.1 == s) = false := by simpa using hs
       have hs' : ¬ s = i.1 := fun e => hs e.symm
-      simp [this, hs']
+      have hm : s ∈ List.map (·.1) (i :: r) ↔ s ∈ List.map (·.1) r := by
+        simp [hs']
+      simp only [this, Bool.false_eq_true, if_false, Nat.zero_add, hm]
 
 theorem hill_perm (syms : List Str) :
     ((hillItems syms).flatMap fun i => List.replicate i.2 i.1).Perm syms := by
@@ -417,6 +419,122 @@ theorem hill_perm_map {β : Type} (f : Str → β) (syms : List Str) :
   have := (hill_perm syms).map f
   rw [List.map_flatMap] at this
   simpa using this
+
+/-! ## §4 `to_graph` -/
+
+def checkStep (n : Int) (x : Int × Int) (_s : PUnit) : PyM (ForInStep PUnit) :=
+  if x.1 ≥ n then .error .tucanParser
+  else if x.2 ≥ n then .error .tucanParser else .ok (.yield PUnit.unit)
+
+def joinStep (n : Int) (x : Int × Atom) (d : List (Int × Atom)) : PyM (ForInStep (List (Int × Atom))) :=
+  if x.1 ≥ n then .error .tucanParser
+  else match alookup x.1 d with
+    | none => .error .keyError
+    | some a => .ok (.yield (ainsert x.1 (a.update x.2) d))
+
+theorem toGraph_eq (st : ListenerState) : toGraph st =
+    (forIn st.bonds PUnit.unit (checkStep st.atoms.length)) >>= fun _ =>
+    (forIn st.nodeAttrs ((sortAtomsByZ st.atoms).zipIdx.map fun (a, i) => ((i : Int), a))
+      (joinStep st.atoms.length)) >>= fun d =>
+    graphFromMolecule d (st.bonds.foldl (fun d b => ainsert b ({} : Bond) d) []) >>= fun x =>
+    pure x.1 := by
+  rfl
+
+theorem forIn_inv {α β : Type} (f : α → β → PyM (ForInStep β)) (g : β → α → β) (I : β → Prop)
+    (Q : α → Prop) (hf : ∀ a, Q a → ∀ b, I b → f a b = .ok (.yield (g b a)) ∧ I (g b a)) :
+    ∀ (l : List α), (∀ a ∈ l, Q a) → ∀ b, I b → forIn l b f = .ok (l.foldl g b)
+  | [], _, b, _ => rfl
+  | a :: l, hl, b, hb => by
+    obtain ⟨h1, h2⟩ := hf a (hl a List.mem_cons_self) b hb
+    rw [List.forIn_cons, h1, List.foldl_cons]
+    exact forIn_inv f g I Q hf l (fun x hx => hl x (List.mem_cons_of_mem _ hx)) _ h2
+
+theorem check_eval (n : Int) (bonds : List (Int × Int)) (h : ∀ b ∈ bonds, b.1 < n ∧ b.2 < n) :
+    forIn bonds PUnit.unit (checkStep n) = .ok PUnit.unit := by
+  rw [forIn_inv (checkStep n) (fun _ _ => PUnit.unit) (fun _ => True) (fun b => b.1 < n ∧ b.2 < n) ?_
+    bonds h PUnit.unit trivial]
+  intro a ha b _
+  refine ⟨?_, trivial⟩
+  unfold checkStep
+  rw [if_neg (by omega), if_neg (by omega)]
+
+/-- one step of the attribute join, as a pure function -/
+def joinG (d : List (Int × Atom)) (e : Int × Atom) : List (Int × Atom) :=
+  ainsert e.1 (((alookup e.1 d).getD default).update e.2) d
+
+theorem keys_ainsert_of_mem {k : Int} {v : Atom} {d : List (Int × Atom)} (hnd : (d.map (·.1)).Nodup)
+    (hk : k ∈ d.map (·.1)) : (ainsert k v d).map (·.1) = d.map (·.1) := by
+  rw [ainsert_eq_map hnd hk, List.map_map]
+  apply List.map_congr_left
+  intro p _
+  simp only [Function.comp]
+  split
+  · next h => exact (eq_of_beq h).symm
+  · rfl
+
+theorem alookup_isSome_of_mem {k : Int} : ∀ {d : List (Int × Atom)}, k ∈ d.map (·.1) →
+    ∃ a, alookup k d = some a
+  | [], h => by simp at h
+  | (k0, v0) :: r, h => by
+    simp only [alookup]
+    by_cases hk : (k0 == k) = true
+    · exact ⟨v0, by rw [if_pos hk]⟩
+    · rw [if_neg hk]
+      simp only [List.map_cons, List.mem_cons] at h
+      rcases h with h | h
+      · subst h; simp at hk
+      · exact alookup_isSome_of_mem h
+
+theorem join_eval (n : Int) (E d : List (Int × Atom)) (hnd : (d.map (·.1)).Nodup)
+    (hE : ∀ e ∈ E, e.1 < n ∧ e.1 ∈ d.map (·.1)) :
+    forIn E d (joinStep n) = .ok (E.foldl joinG d) := by
+  refine forIn_inv (joinStep n) joinG (fun d' => d'.map (·.1) = d.map (·.1))
+    (fun e => e.1 < n ∧ e.1 ∈ d.map (·.1)) ?_ E hE d rfl
+  intro e he d' hd'
+  obtain ⟨a, ha⟩ := alookup_isSome_of_mem (hd' ▸ he.2)
+  refine ⟨?_, ?_⟩
+  · unfold joinStep joinG
+    rw [if_neg (by omega), ha]
+    rfl
+  · unfold joinG
+    rw [keys_ainsert_of_mem (hd' ▸ hnd) (hd' ▸ he.2), hd']
+
+/-- the dictionary after the join: every key keeps its place, the listed ones are updated -/
+def joined (E : List (Int × Atom)) (p : Int × Atom) : Int × Atom :=
+  (p.1, match alookup p.1 E with | some e => p.2.update e | none => p.2)
+
+theorem join_fold : ∀ (E d : List (Int × Atom)), (d.map (·.1)).Nodup → (E.map (·.1)).Nodup →
+    (∀ e ∈ E, e.1 ∈ d.map (·.1)) → E.foldl joinG d = d.map (joined E)
+  | [], d, _, _, _ => by
+    simp only [List.foldl_nil]
+    conv => lhs; rw [← List.map_id d]
+    apply List.map_congr_left
+    intro p _
+    rfl
+  | e :: E', d, hnd, hE, hmem => by
+    simp only [List.map_cons, List.nodup_cons] at hE
+    have hk := hmem e List.mem_cons_self
+    have hkeys : (joinG d e).map (·.1) = d.map (·.1) := keys_ainsert_of_mem hnd hk
+    rw [List.foldl_cons, join_fold E' (joinG d e) (hkeys ▸ hnd) hE.2
+      (fun x hx => hkeys ▸ hmem x (List.mem_cons_of_mem _ hx))]
+    unfold joinG
+    rw [ainsert_eq_map hnd hk, List.map_map]
+    apply List.map_congr_left
+    intro p hp
+    simp only [Function.comp]
+    by_cases hpe : (p.1 == e.1) = true
+    · have hpe' : p.1 = e.1 := eq_of_beq hpe
+      have hl : alookup e.1 d = some p.2 := by
+        rw [← hpe']; exact alookup_of_mem hnd hp
+      rw [if_pos hpe, hl]
+      unfold joined
+      simp only [Option.getD_some, alookup_none hE.1, alookup, hpe']
+      simp
+    · rw [if_neg hpe]
+      unfold joined
+      have : (e.1 == p.1) = false := by
+        rw [beq_eq_false_iff_ne]; intro h; rw [h] at hpe; simp at hpe
+      simp only [alookup, this, Bool.false_eq_true, if_false]
 
 -- §MARK
 end RoundTrip
